@@ -3,7 +3,7 @@
    not yet proved is decided on every run by the lock-step co-simulation (model = implementation on every
    explored schedule) together with the monitors run on the implementation's own observations. *)
 From RaftV Require Import Cluster.World Cluster.Statements Proofs.RVSpec Proofs.AESpec Proofs.CommitSpec Proofs.ReplySpec.
-From RaftV Require Import Proofs.ConfStatic Proofs.ElectSafety Proofs.LCFinal.
+From RaftV Require Import Proofs.ConfStatic Proofs.ElectSafety Proofs.LCFinal Proofs.LCAck.
 Open Scope N_scope.
 
 (* cluster level, every schedule without membership changes and snapshots (crash at any storage write and restart
@@ -21,6 +21,31 @@ Theorem C04_applied_durable_on_majority : forall ids boot et ld ls1 ls2,
     forall nv, In nv (w_nodes w2) -> In (n_id nv) V -> In e (n_log nv).
 Proof. exact applied_durable_on_majority. Qed.
 Print Assumptions C04_applied_durable_on_majority.
+
+(* "At the moment a replicated operation is acknowledged to a client ...": cluster level, same executions. A client
+   future answered with the success result FOp index term payload (acked_op, Proofs/LCAck.v: the pair is in the
+   answer history n_results of some node) means: at that point and at every later point of the execution, after
+   any crashes and restarts, the entry with that index, term and payload is in the on-disk log of every node of
+   some majority of the voters ... *)
+Theorem C04_acknowledged_durable_on_majority : forall ids boot et ld ls1 ls2,
+  static (ls1 ++ ls2) = true -> nosnap (ls1 ++ ls2) = true ->
+  let w1 := run (init_world ids boot et ld) ls1 in
+  let w2 := run w1 ls2 in
+  forall i t p, acked_op w1 i t p ->
+  exists e V, e_index e = i /\ e_term e = t /\ e_kind e = KOp p /\
+    NoDup V /\ incl V (voters (bootconf boot)) /\ (length (voters (bootconf boot)) < 2 * length V)%nat /\
+    forall nv, In nv (w_nodes w2) -> In (n_id nv) V -> In e (n_log nv).
+Proof. exact acknowledged_durable_on_majority. Qed.
+Print Assumptions C04_acknowledged_durable_on_majority.
+
+(* ... and every node that applies that index, at any later point, applies that operation. *)
+Theorem C04_acknowledged_then_applied_everywhere : forall ids boot et ld ls1 ls2,
+  static (ls1 ++ ls2) = true -> nosnap (ls1 ++ ls2) = true ->
+  let w1 := run (init_world ids boot et ld) ls1 in
+  let w2 := run w1 ls2 in
+  forall i t p t' p', acked_op w1 i t p -> applied_in w2 i t' p' -> t = t' /\ p = p'.
+Proof. exact acknowledged_then_applied. Qed.
+Print Assumptions C04_acknowledged_then_applied_everywhere.
 
 (* not vacuous: a schedule (3 nodes) in which node 0 is elected in term 1, replicates, commits and applies the
    operation 7 at index 3 (first point: c07_ls1), then node 1 applies it and is elected in term 2 (second point) *)
@@ -45,6 +70,11 @@ Example C04_cluster_not_vacuous :
                  (Leader, false, 2, 3, [(3, 1, 7)], [(0, 0); (1, 1); (2, 1); (3, 1); (4, 2)]);
                  (Follower, false, 2, 3, [], [(0, 0); (1, 1); (2, 1); (3, 1)])].
 Proof. split; [reflexivity|]. split; [reflexivity|]. cbn zeta. split; vm_compute; reflexivity. Qed.
+
+(* in that schedule the client's future 0 has been answered at the first point: operation 7, index 3, term 1 *)
+Example C04_acknowledged_not_vacuous :
+  map n_results (w_nodes (run (init_world [0; 1; 2] [0; 1; 2] 4 2) c07_ls1)) = [[(0, FOp 3 1 7 1)]; []; []].
+Proof. vm_compute. reflexivity. Qed.
 
 (* becomeFollower (every term change, every step-down) never touches the commit index, the applied index, the
    snapshot boundary, the stored snapshots, the state machine or its apply history *)
